@@ -658,12 +658,83 @@ def rule_index_sync(ctx):
     return obs
 
 
+# ------------------------------------------------------------------------------------------ NARROW-SCOPE
+SEARCH_FNS = kinds.LOWER + kinds.UPPER + ('std::binary_search', 'std::equal_range')
+
+
+def rule_narrow_scope(ctx, tnames):
+    """the window [lo, hi) returned by pgm(i).search(k) only guarantees where the lower bound of k lies: a bound derived from
+    it may be used as an argument of a binary search (possibly through std::max/std::min), never to bound an iteration or
+    a comparison of its own"""
+    obs = []
+    for tn in tnames:
+        for f in ctx.need(tn, ctx.units):
+            # window variables: locals with a definition that reads .lo / .hi of a search result
+            win = {}
+            for vid, d in f.defs.items():
+                if d.get('param'):
+                    continue
+                srcs = ([d['init']] if d.get('init') else [])
+                for w in d.get('writes', []):
+                    nd = f.n(w)
+                    if nd.get('op') == '=':
+                        srcs.append(nd['args'][1] if nd['c'] == 'CXXOperatorCallExpr' else nd['ch'][1])
+                for sn in srcs:
+                    t = f.term(sn, inline=False)
+                    if any(s_[0] == 'field' and s_[1] in ('lo', 'hi') and (s_[2][0] == 'local' or (s_[2][0] == 'call' and s_[2][1].endswith('::search'))) for s_ in subterms(t)):
+                        win[vid] = d.get('name')
+            n_uses = 0
+            bad = []
+            for i in f.all_ids():
+                nd = f.n(i)
+                if nd['c'] != 'DeclRefExpr' or nd.get('d') not in win or not reachable(f, i):
+                    continue
+                # allowed contexts: (transitively through casts, +, std::max/min) an argument of a search call; or the target of an assignment
+                p_ = f.sparent(i)
+                cur = i
+                ok = False
+                while p_:
+                    pn = f.n(p_)
+                    c = pn['c']
+                    if c in ('CallExpr', 'CXXMemberCallExpr') and pn.get('ct') in SEARCH_FNS:
+                        ok = True
+                        break
+                    if c == 'CallExpr' and pn.get('ct') in ('std::max', 'std::min'):
+                        cur, p_ = p_, f.sparent(p_)
+                        continue
+                    if c in ('BinaryOperator',) and pn['op'] in ('+', '-'):
+                        cur, p_ = p_, f.sparent(p_)
+                        continue
+                    if c == 'CXXOperatorCallExpr' and pn.get('op') in ('+', '-'):
+                        cur, p_ = p_, f.sparent(p_)
+                        continue
+                    if (c == 'BinaryOperator' and pn['op'] == '=' and f.strip(pn['ch'][0]) == cur) or (c == 'CXXOperatorCallExpr' and pn.get('op') == '=' and f.strip(pn['args'][0]) == cur):
+                        ok = True
+                        break
+                    if c in ('CXXConstructExpr', 'ImplicitCastExpr', 'CStyleCastExpr', 'CXXFunctionalCastExpr', 'CXXStaticCastExpr', 'MaterializeTemporaryExpr'):
+                        cur, p_ = p_, f.sparent(p_)
+                        continue
+                    if c == 'DeclStmt':
+                        ok = True     # initialising another variable: that variable is a window variable itself if it reads lo/hi
+                        break
+                    break
+                n_uses += 1
+                if not ok:
+                    ctxt = f.term(p_, inline=False) if p_ else ('none',)
+                    bad.append(f"`{win[nd['d']]}` used in `{fmt_term(ctxt)[:80]}` at line {nd['l']}")
+            obs.append(Ob('NARROW-SCOPE', f, 0, 'bounds derived from pgm(i).search(k) are used only as arguments of a binary search for k',
+                          f"{len(win)} window variable(s), {n_uses} use(s), all inside search calls" if not bad else bad[0], OK if not bad else VIOLATED, arm=f.name))
+    return obs
+
+
 def rules_c05(ctx):
-    return rule_tomb_guard(ctx) + rule_merge_precedence(ctx) + rule_tomb_escape_point(ctx) + rule_loop_agree(ctx) + [o for o in rule_kind_dynamic(ctx) if o.arm.startswith(('find', 'lower_bound'))]
+    return (rule_tomb_guard(ctx) + rule_merge_precedence(ctx) + rule_tomb_escape_point(ctx) + rule_loop_agree(ctx) + [o for o in rule_kind_dynamic(ctx) if o.arm.startswith(('find', 'lower_bound'))] +
+            rule_narrow_scope(ctx, [D + '::find', D + '::lower_bound']))
 
 
 def rules_c06(ctx):
-    return rule_tomb_escape_scan(ctx) + rule_tomb_guard(ctx, ('range',)) + rule_loop_agree(ctx) + [o for o in rule_kind_dynamic(ctx) if o.arm.startswith(('range', 'lazy'))] + rule_derived(ctx)
+    return (rule_tomb_escape_scan(ctx) + rule_tomb_guard(ctx, ('range',)) + rule_loop_agree(ctx) + [o for o in rule_kind_dynamic(ctx) if o.arm.startswith(('range', 'lazy'))] + rule_derived(ctx) +
+            rule_narrow_scope(ctx, [D + '::lower_bound', D + '::range', IT + '::lazy_initialize']))
 
 
 def rules_c15(ctx):
